@@ -70,6 +70,8 @@ type Features struct {
 	Layer2          bool `json:"layer2"`
 	Recovery        bool `json:"recovery"`
 	Upgrade         bool `json:"upgrade"`
+	UpgradeExecuted bool `json:"upgrade_executed"` // the plan's time passes before the export: current plan set
+	Rotation        bool `json:"rotation"`         // MsgRotateRecoveryAddress of a5 in the last block before the export
 	ExtraBlocks     int  `json:"extra_blocks"`
 	NUndelegations  int  `json:"n_undelegations"`
 	NRoles          int  `json:"n_roles"`
@@ -94,7 +96,7 @@ type Windows struct {
 func DefaultWindows() Windows { return Windows{1000, 86400, 86400, 17280, 110, 300, 300, false} }
 
 func AllFeatures() Features {
-	return Features{true, true, true, true, true, true, true, true, true, false, true, true, true, true, true, true, true, true, true, true, true, true, true, true, true, true, true, true,
+	return Features{true, true, true, true, true, true, true, true, true, false, true, true, true, true, true, true, true, true, true, true, true, true, true, true, true, true, true, true, false, true,
 		2, 2, 2, 4, false, Windows{3, 86400, 86400, 2, 110, 300, 300, false}}
 }
 
@@ -102,7 +104,7 @@ func RandomFeatures(r *hx.Rng) Features {
 	p := func() bool { return r.Chance(55) }
 	f := Features{RoleBlacklist: p(), ActorPerms: p(), ProposalVoting: p(), ProposalEnact: p(), ProposalDone: p(), DataRegistry: r.Chance(50), Poll: p(), Councilor: p(), Identity: p(), UniqueKeyClash: r.Chance(12), ExecFee: p(),
 		ValPaused: p(), ValInactive: p(), ValJailed: p(), ValJoin: p(), Absent: p(), Multistaking: p(), Undelegation: p(), Compound: p(), Basket: p(), Tokens: p(), Spending: p(),
-		Ubi: p(), Collective: p(), Custody: p(), Layer2: p(), Recovery: p(), Upgrade: r.Chance(25),
+		Ubi: p(), Collective: p(), Custody: p(), Layer2: p(), Recovery: p(), Upgrade: r.Chance(25), UpgradeExecuted: r.Chance(10), Rotation: r.Chance(40),
 		ExtraBlocks: r.Intn(4), NUndelegations: 1 + r.Intn(3), NRoles: 1 + r.Intn(3), Validators: 4 + r.Intn(2)}
 	f.W = DefaultWindows()
 	if r.Chance(60) {
@@ -289,7 +291,9 @@ func Populate(c *abci.Chain, f Features, r *hx.Rng) *World {
 		w.applyContent("raise ubi hardcap", govtypes.NewSetNetworkPropertyProposal(govtypes.UbiHardcap, govtypes.NetworkPropertyValue{Value: 10000000}))
 		w.applyContent("upsert ubi", ubitypes.NewUpsertUBIProposal("ubi1", uint64(c.Time.Unix()), uint64(c.Time.Unix())+1000000, 1000, 86400*30, "ValidatorBasicRewardsPool"))
 	}
-	if f.Upgrade {
+	if f.UpgradeExecuted {
+		// submitted as a real proposal in block 3 (below)
+	} else if f.Upgrade {
 		w.applyContent("software upgrade plan", upgradetypes.NewSoftwareUpgradeProposal("upgrade1", []upgradetypes.Resource{{Id: "id", Url: "url", Version: "v2", Checksum: "cs"}},
 			c.Time.Unix()+100000000, "oldchain", "newchain", "rollback", 1000, "memo", false, false, false))
 	}
@@ -401,6 +405,14 @@ func Populate(c *abci.Chain, f Features, r *hx.Rng) *World {
 		pRej := gtx("poor msgs (no votes)", govtypes.NewSetPoorNetworkMessagesProposal([]string{"submit-proposal", "vote-proposal"}), 0)
 		_ = pRej
 	}
+	if f.UpgradeExecuted {
+		// an in-state software upgrade, passed by a real vote, whose time arrives shortly before the export:
+		// first the validators whose owners did not vote are paused, one block later the plan becomes the
+		// CURRENT plan; with few extra blocks the export lands in the middle of that
+		pUp := gtx("software upgrade", upgradetypes.NewSoftwareUpgradeProposal("upgrade0", []upgradetypes.Resource{{Id: "id", Url: "url", Version: "v2", Checksum: "cs"}},
+			c.Time.Unix()+1425+int64(r.Intn(12)), "oldchain", "newchain", "rollback", 1000, "memo", true, false, true), 0)
+		vote(pUp, 0, govtypes.OptionYes)
+	}
 	w.end()
 
 	if f.W.LongHistory {
@@ -413,7 +425,7 @@ func Populate(c *abci.Chain, f Features, r *hx.Rng) *World {
 		w.emptyBlock(700000)
 	}
 	// voting period (default 10 min) passes, enactment follows
-	if f.ProposalDone {
+	if f.ProposalDone || f.UpgradeExecuted {
 		w.emptyBlock(700)
 		w.emptyBlock(5)
 		w.emptyBlock(700)
@@ -524,6 +536,17 @@ func Populate(c *abci.Chain, f Features, r *hx.Rng) *World {
 	w.emptyBlock(5) // MinProposalEndBlocks passed: the finished vote moves to the enactment queue here
 	for i := 0; i < f.ExtraBlocks; i++ {
 		w.emptyBlock(5 + int64(i))
+	}
+	if f.Rotation && f.Recovery {
+		// address rotation just before the export: x/recovery rewrites the state other modules hold for a5
+		w.begin(5, absent, nil)
+		rms := recoverykeeper.NewMsgServerImpl(app.RecoveryKeeper)
+		w.step("rotate recovery address a5", func() error {
+			_, err := rms.RotateRecoveryAddress(sdk.WrapSDKContext(c.Ctx()), &recoverytypes.MsgRotateRecoveryAddress{FeePayer: A(5).String(), Address: A(5).String(),
+				Recovery: sdk.AccAddress([]byte("rotated_a5__________")).String(), Proof: hex.EncodeToString([]byte("secret"))})
+			return err
+		})
+		w.end()
 	}
 	_ = time.Second
 	return w
